@@ -43,6 +43,25 @@ func main() {
 		for _, d := range dropped {
 			fmt.Println("dropped:", d)
 		}
+	case "overlay":
+		// qedvc overlay <dir>: write the go build/test overlay that replaces the cgo RocksDB
+		// wrapper by its pure-Go skeleton (so that every package of QEDVC_REPO type-checks and builds)
+		if len(os.Args) < 3 {
+			fmt.Println("usage: qedvc overlay <output dir>")
+			os.Exit(2)
+		}
+		ov, _, err := Skeleton()
+		if err != nil {
+			fmt.Println(err)
+			os.Exit(1)
+		}
+		os.MkdirAll(os.Args[2], 0o755)
+		p, err := WriteOverlayJSON(os.Args[2], ov)
+		if err != nil {
+			fmt.Println(err)
+			os.Exit(1)
+		}
+		fmt.Println(p)
 	case "runtest":
 		// qedvc runtest <import path> <file with TestQedvcReplay>: run a hand-written
 		// demonstration in-package against the real code (same overlay as a replay)
